@@ -243,7 +243,7 @@ func ruleR16c(h *H) {
 				}
 			}
 		}
-		h.Verdict(ok, rule, "sequence notification after successful generation in "+ir.FuncName(s.Fn), h.pos(s.Call), "success-dominated by the generation", why)
+		h.Verdict(ok, rule, fmt.Sprintf("sequence notification #%d after successful generation", n), h.pos(s.Call), "success-dominated by the generation", why)
 		// commit clause: is this call reachable from ProcessWrite before the commit?
 		beforeCommit := false
 		for _, root := range applyRoots(h, rule) {
@@ -259,7 +259,7 @@ func ruleR16c(h *H) {
 				}
 			}
 		}
-		h.Verdict(!beforeCommit, rule, "sequence notification after commit in "+ir.FuncName(s.Fn), h.pos(s.Call), "notified after the batch is committed",
+		h.Verdict(!beforeCommit, rule, fmt.Sprintf("sequence notification #%d after commit", n), h.pos(s.Call), "notified after the batch is committed",
 			"subscribers are notified while the batch is still being built, before Commit: the key may never be committed, and a subscriber that registers between the notification and the commit reads the old last key and misses the new one")
 	}
 	if n == 0 {
